@@ -88,7 +88,7 @@ def run(tier, seed, repo, focus=None):
     res = Result("C15", "bounded/b_C15.py",
                  "every non-label detector x {C-order, Fortran-order, view-of-larger-array, DataFrame} inputs: the caller "
                  "overwrites each object right after handing it over (reference batches, test batches, single "
-                 "observations); outputs must equal a run on private copies and the call must not modify its argument; "
+                 "observations; batch detectors are also re-referenced in mid-stream); outputs must equal a run on private copies and the call must not modify its argument; "
                  "every injector x {ndarray, DataFrame} x windows: input bit-for-bit unchanged, new object of the same "
                  "type, caller dictionaries untouched; non-trivial = every scenario", {"seeds": 1 if quick else 3})
     known = load_known()
@@ -104,6 +104,16 @@ def run(tier, seed, repo, focus=None):
                 for s in range(1 if quick else 3):
                     scns.append({"det": name, "variant": v, "seed": seed + s, "n": n, "mode": mode})
     drivers.run_scenarios(res, "no_alias", scns, known)
+    # re-referencing in mid-stream: second and third set_reference calls on the same detector, array overwritten afterwards
+    scns = []
+    for name, d in C.DETECTORS.items():
+        if d["kind"] != "batch":
+            continue
+        for v in range(len(d["variants"]) if not quick else 1):
+            for mode in ("c", "f", "view", "df"):
+                for s in range(1 if quick else 3):
+                    scns.append({"det": name, "variant": v, "seed": seed + s, "n": 9, "mode": mode, "reref": [3, 6]})
+    drivers.run_scenarios(res, "no_alias_reref", scns, known)
     for name in INJECTORS:
         for as_df in (False, True):
             for lo, hi in ((0, 30), (5, 20), (10, 10), (29, 30)):
